@@ -18,7 +18,7 @@ from textx.registration import GeneratorDesc, LanguageDesc
 
 NAMES = ["lang", "Lang", "LANG", "other", "any", "Other"]
 TARGETS = ["dot", "Dot", "java", "DOT"]
-PATTERNS = ["*.a", "*.b", "x.a", "*.*"]
+PATTERNS = ["*.a", "*.b", "x.a", "*.*", None]  # None = registered without a pattern (the default): matches no file
 FILES = ["x.a", "y.b", "z.c", "x.b"]
 
 
@@ -30,10 +30,14 @@ class EP:
             self.name = name
             self.version = version
 
-    def __init__(self, obj, dist, version):
+    def __init__(self, obj, dist, version, name=None):
         self.obj = obj
         self.dist = EP.Dist(dist, version)
         self.loads = 0
+        # the entry point's own name is a Python identifier chosen by the plug-in, not the language / generator name
+        self.name = name or "ep_" + str(getattr(obj, "name", None) or getattr(obj, "target", "x")).lower().replace("-", "_")
+        self.group = "textx_languages" if hasattr(obj, "pattern") else "textx_generators"
+        self.value = "plugin.module:" + self.name
 
     def load(self):
         self.loads += 1
@@ -114,7 +118,8 @@ class Model:
         )
 
     def hits(self, f):
-        return [k for k, r in self.langs.items() if f == r.pattern or fnmatch.fnmatch(f, r.pattern)]
+        return [k for k, r in self.langs.items()
+                if r.pattern is not None and (f == r.pattern or fnmatch.fnmatch(f, r.pattern))]
 
     def mm_for(self, name, kwargs):
         """expectation for metamodel_for_language(name, **kwargs)"""
@@ -332,7 +337,7 @@ def draw_args(t, op, ctx):
     if op in ("generator_description", "generator_for_language_target"):
         return [t.pick(NAMES, "name"), t.pick(TARGETS, "target"), t.chance(1, 2, "any-permitted")]
     if op in ("languages_for_file", "language_for_file", "metamodels_for_file"):
-        return [t.pick(FILES + PATTERNS[:2], "file")]
+        return [t.pick(FILES + PATTERNS[:2], "file")]  # (a file name or a pattern string, never None)
     if op == "metamodel_for_file":
         return [t.pick(FILES, "file"), ({"k": 1} if t.chance(1, 3, "kw") else {})]
     return []
@@ -465,6 +470,8 @@ def apply_real(op, a):
         return ERR
     except InjectedFactoryError:
         return RAISED
+    except Exception as e:  # anything else is an outcome to be judged, not a crash of the harness
+        return ("crash", type(e).__name__, str(e)[:100])
     raise AssertionError(op)
 
 
@@ -490,6 +497,8 @@ def _cmp_mm(m, e, got_mm):
 
 
 def compare(m, exp, got):
+    if isinstance(got, tuple) and got and got[0] == "crash":
+        return f"raised {got[1]}: {got[2]}"
     if got is RAISED:
         if isinstance(exp, tuple) and exp[0] == "mm" and exp[1] is not ERR:
             return _cmp_mm(m, exp[1], RAISED)
